@@ -54,6 +54,7 @@ type Term struct {
 	str   string
 	name  string
 	vars  map[string]struct{}
+	cases []ctCase // guarded-constant normal form (ctree.go), nil for ordinary terms
 }
 
 var (
@@ -260,6 +261,24 @@ func Ite(c, a, b *Term) *Term {
 		if a.IsFalse() && b.IsTrue() {
 			return Not(c)
 		}
+		// one constant branch: plain connectives instead of a Boolean ite
+		if a.IsTrue() {
+			return Or(c, b)
+		}
+		if a.IsFalse() {
+			return And(Not(c), b)
+		}
+		if b.IsTrue() {
+			return Or(Not(c), a)
+		}
+		if b.IsFalse() {
+			return And(c, a)
+		}
+	}
+	if a.Sort.Kind != 'B' {
+		if r := ctIte(c, a, b); r != nil {
+			return r
+		}
 	}
 	return mk("ite", a.Sort, c, a, b)
 }
@@ -273,6 +292,9 @@ func Eq(a, b *Term) *Term {
 	}
 	if a == b {
 		return TrueT
+	}
+	if a.Sort.Kind != 'B' && ctLiftable(a, b) {
+		return ctRel(a, b, func(x, y *Term) bool { return x.Val == y.Val })
 	}
 	if a.Sort.Kind == 'B' {
 		if a.IsTrue() {
@@ -346,6 +368,11 @@ func BVBin(op string, a, b *Term) *Term {
 			return ConstBV(uint64(a.Signed()>>sh), w)
 		}
 	}
+	if (op == "bvadd" || op == "bvsub" || op == "bvmul") && ctLiftable(a, b) {
+		if r := ctArith(a, b, func(x, y *Term) *Term { return ctArithLeaf(op, x, y) }); r != nil {
+			return r
+		}
+	}
 	if IntMode && w == 64 {
 		switch op {
 		case "bvsdiv", "bvsrem":
@@ -417,6 +444,9 @@ func BVCmp(op string, a, b *Term) *Term {
 		case "bvsge":
 			return ConstBool(a.Signed() >= b.Signed())
 		}
+	}
+	if ctLiftable(a, b) {
+		return ctRel(a, b, func(x, y *Term) bool { return BVCmp(op, x, y).IsTrue() })
 	}
 	return mk(op, BoolSort, a, b)
 }
